@@ -17,7 +17,10 @@ RULE = ('(A) small boxes: for every cvxopt.blas function and every integer argum
         'dimensions 1, 2, 4 - each call runs in a forked child: death by signal = interpreter crashed; for blas an accepted call '
         'whose footprint does not fit is a violation too; (C) the misc_solvers kernels with a vector one element too short, and '
         '(D) base.gemm/gemv/syrk/symv/axpy with every mismatched output shape, dense and sparse; everything in-process runs on '
-        'the AddressSanitizer build as well. non-trivial = calls whose footprint does not fit (they must be rejected)')
+        'the AddressSanitizer build as well. non-trivial = calls whose footprint does not fit (they must be rejected)'
+        ' (G) every lapack wrapper x every flag value x each matrix argument one column / one row short or reduced to one column (selection ranges opened); '
+        '(H) the sparse constructor enumeration of C16 (block lists with real / complex / purely imaginary entries, spdiag, triplets) for its memory behaviour; '
+        '(I) one-argument sparse assignment with number / dense / sparse values for every pair of linear positions incl. negative ones')
 ASSUME = ['reads made inside the uninstrumented Fortran BLAS/LAPACK kernels are not observed directly; they are covered through the accept/reject comparison',
           'lapack large-value calls are judged by process survival only (no footprint model for LAPACK)',
           'huge indices / sizes of matrix and spmatrix objects are enumerated by C15 and C16 (ASan flavours)']
